@@ -604,7 +604,12 @@ fn emit_doc(out: &mut String, doc: &[Vec<String>], indent: &str) {
                 text.push_str(l);
             }
         }
-        let _ = writeln!(out, "{}/** {} */", indent, text);
+        if spell(&text, 19) % 2 == 0 {
+            // the text starts on the line after the opener and the closer stands on a line of its own
+            let _ = writeln!(out, "{}/**\n{}    {}\n{}*/", indent, indent, text, indent);
+        } else {
+            let _ = writeln!(out, "{}/** {} */", indent, text);
+        }
         return;
     }
     let line = |out: &mut String, l: &str| {
